@@ -29,6 +29,13 @@ pub fn builtin_directives() -> Vec<DirectiveDef> {
     ]
 }
 
+/// the directive nitrogql itself adds to every schema (crates/cli/src/builtins.rs); known to the reference validator and
+/// to the scalar mapping, but *not* part of `builtin_directives()`, which C16 uses to decide what an emitted server schema may add
+pub fn nitrogql_directives() -> Vec<DirectiveDef> {
+    let arg = |name: &str| InputValueDef { desc: None, name: nm(name), ty: Ty::non_null(Ty::named("String")), default: None, dirs: vec![] };
+    vec![DirectiveDef { desc: None, p: P::none(), name: nm("nitrogql_ts_type"), args: vec![arg("resolverInput"), arg("resolverOutput"), arg("operationInput"), arg("operationOutput")], repeatable: false, repeatable_p: P::none(), locations: vec![nm("SCALAR")] }]
+}
+
 impl SchemaIx {
     /// build from merged definitions (no `ext` items)
     pub fn new(doc: &TsDoc) -> SchemaIx {
@@ -57,7 +64,7 @@ impl SchemaIx {
                 types.insert(b.to_string(), TypeDef::new(TKind::Scalar, b));
             }
         }
-        for d in builtin_directives() {
+        for d in builtin_directives().into_iter().chain(nitrogql_directives()) {
             directives.entry(d.name.s.clone()).or_insert(d);
         }
         let (query, mutation, subscription) = match schema_def {
@@ -168,6 +175,10 @@ pub fn merge_extensions(doc: &TsDoc) -> TsDoc {
     for d in &doc.defs {
         match d {
             TsDef::Type(x) if x.ext => {
+                // the built-in scalars are defined implicitly: an extension of one of them has a base
+                if x.kind == TKind::Scalar && BUILTIN_SCALARS.contains(&x.name.s.as_str()) && !out.iter().any(|o| matches!(o, TsDef::Type(b) if b.kind == TKind::Scalar && b.name.s == x.name.s)) {
+                    out.push(TsDef::Type(TypeDef::new(TKind::Scalar, &x.name.s)));
+                }
                 if let Some(TsDef::Type(b)) = out.iter_mut().find(|o| matches!(o, TsDef::Type(b) if b.kind == x.kind && b.name.s == x.name.s)) {
                     b.dirs.extend(x.dirs.clone());
                     b.implements.extend(x.implements.clone());
